@@ -551,11 +551,11 @@ Section Repaired.
     rexhaust fuel d (RLive i p) tr = Some (w, {| cache := w; src := [] |}).
   Proof.
     induction fuel as [|f IH]; intros d i p tr Hd Hh Hf; [lia|].
-    simpl. destruct (rstep d (RLive i p)) as [[o d'] st'] eqn:Es.
+    cbn [rexhaust]. destruct (rstep d (RLive i p)) as [[o d'] st'] eqn:Es.
     destruct (rstep_inv _ _ _ _ _ _ Hd Hh Es) as (A & B & _).
     pose proof (rhinv_prefix _ _ _ A B) as [x Hx].
     pose proof (rstep_out _ _ _ _ _ Es) as Ho.
-    destruct o as [v| |]; simpl in *.
+    destruct o as [v| |]; cbn [yielded] in *.
     - destruct Ho as (i' & p' & ->). apply IH; auto. rewrite app_length. simpl.
       assert (E : length w = length ((tr ++ [v]) ++ x)) by congruence.
       rewrite !app_length in E. simpl in E. lia.
